@@ -165,6 +165,9 @@ func (c *Cluster) Exec(a Action) bool {
 	case "releaselink":
 		// Kind (optional) restricts the release to one kind of message, e.g. "RV": vote traffic passes, the rest stays parked
 		n := c.net.ReleaseAll(a.Mode != "drop", func(m *Msg) bool {
+			if a.Kind == "RVpre" || a.Kind == "RVreal" { // only prevotes / only real vote requests (and their replies)
+				return m.from() == a.Node && m.to() == a.Node2 && m.Info.Kind == "RV" && m.Info.Prevote == (a.Kind == "RVpre")
+			}
 			return m.from() == a.Node && m.to() == a.Node2 && (a.Kind == "" || m.Info.Kind == a.Kind)
 		})
 		return n > 0
